@@ -711,6 +711,22 @@ func (m *Manager) configureTasks(envId uid.ID, tasks Tasks) error {
 			return fmt.Errorf("task %s on %s has nil parent, this should never happen", task.GetClassName(), task.GetHostname())
 		}
 		taskPath := task.GetParentRolePath()
+
+		// Two inbound channels of one task claiming the same global alias: the task's local bind map could
+		// only keep one of them, so the clash must be caught on the channel declarations.
+		if class := task.GetTaskClass(); class != nil {
+			aliasOwner := make(map[string]string)
+			for _, inbCh := range channel.MergeInbound(task.GetParent().CollectInboundChannels(), class.Bind) {
+				if len(inbCh.Global) == 0 {
+					continue
+				}
+				if owner, exists := aliasOwner[inbCh.Global]; exists && owner != inbCh.Name {
+					return fmt.Errorf("workflow template contains illegal redefinition of global channel alias ::%s (channels %s and %s of %s)", inbCh.Global, owner, inbCh.Name, taskPath)
+				}
+				aliasOwner[inbCh.Global] = inbCh.Name
+			}
+		}
+
 		for inbChName, endpoint := range task.GetLocalBindMap() {
 			var bindMapKey string
 			if strings.HasPrefix(inbChName, "::") { // global channel alias
